@@ -82,7 +82,7 @@ fn decode_artifact(target: &str, file: &str) -> i32 {
         Err(f) => (f.sig.clone(), f.msg.clone()),
     };
     let v = serde_json::json!({"property": id, "sub": sub, "signature": sig, "message": msg, "case": case, "from_libfuzzer_artifact": file});
-    let dir = std::path::Path::new(engine::VERIF_DIR).join("failures");
+    let dir = engine::verif_dir().join("failures");
     let _ = std::fs::create_dir_all(&dir);
     let name = std::path::Path::new(file).file_name().map(|s| s.to_string_lossy().to_string()).unwrap_or_default();
     let path = dir.join(format!("{}-{}-{}.json", id, target, name));
